@@ -12,14 +12,31 @@ import (
 
 // ModelledCheckers are the checkers transliterated in coq/theories/Model_Checkers.v (run_by_name).
 var ModelledCheckers = []string{"appendAssign", "appendCombine", "badRegexp", "dupOption", "evalOrder", "filepathJoin", "flagName",
-	"newDeref", "nilValReturn", "rangeAppendAll", "regexpPattern", "regexpSimplify", "sortSlice", "truncateCmp", "truncateCmp/noskip", "typeDefFirst"}
+	"newDeref", "nilValReturn", "rangeAppendAll", "regexpPattern", "regexpSimplify", "sortSlice", "truncateCmp", "truncateCmp/noskip", "typeDefFirst",
+	// Model_Checkers2.v
+	"builtinShadowDecl", "defaultCaseOrder", "emptyFallthrough", "initClause", "singleCaseSwitch", "elseif", "elseif/skipBalanced=false",
+	"deferInLoop", "unnamedResult", "unnamedResult/checkExported=true", "paramTypeCombine", "ptrToRefParam", "sloppyTypeAssert",
+	"octalLiteral", "hexLiteral", "weakCond", "methodExprCall", "dupBranchBody", "underef", "underef/skipRecvDeref=false",
+	"captLocal", "captLocal/paramsOnly=false", "builtinShadow", "exitAfterDefer", "unlambda"}
+
+// ModelledVariant maps a non-default parameter variant of a modelled checker to its model name ("" = not modelled).
+func ModelledVariant(name, tag string) string {
+	if name == "truncateCmp" && tag == "skipArchDependent=false" {
+		return "truncateCmp/noskip"
+	}
+	switch name + "/" + tag {
+	case "elseif/skipBalanced=false", "unnamedResult/checkExported=true", "underef/skipRecvDeref=false", "captLocal/paramsOnly=false":
+		return name + "/" + tag
+	}
+	return ""
+}
 
 // subject-bearing modelled checkers whose warnings carry a recognition verdict (C20 tie)
-var modelledSubject = []string{"appendAssign", "appendCombine", "filepathJoin", "flagName", "newDeref", "nilValReturn", "rangeAppendAll", "sortSlice", "truncateCmp"}
+var modelledSubject = []string{"appendAssign", "appendCombine", "exitAfterDefer", "filepathJoin", "flagName", "newDeref", "nilValReturn", "rangeAppendAll", "sortSlice", "truncateCmp"}
 
-var witnessNS = map[string]bool{"ns_append_pkgfunc_same": true, "ns_new_pkgfunc_same": true, "ns_sort_local": true, "ns_filepath_alias": true, "ns_flag_pkgvar": true, "ns_cast_pkgfunc": true, "ns_nil_local": true}
+var witnessNS = map[string]bool{"ns_append_pkgfunc_same": true, "ns_new_pkgfunc_same": true, "ns_sort_local": true, "ns_filepath_alias": true, "ns_flag_pkgvar": true, "ns_cast_pkgfunc": true, "ns_nil_local": true, "ns_exit_local": true}
 
-const tieHeader = "From GC Require Import Base GoAst Model_Checkers.\nOpen Scope string_scope.\nOpen Scope N_scope.\n\n"
+const tieHeader = "From GC Require Import Base GoAst Model_Checkers Model_Checkers2 Model_Walkers Model_Comments.\nOpen Scope string_scope.\nOpen Scope N_scope.\n\n"
 
 func obsTerm(o ModelObs) string {
 	if o.Panic {
@@ -93,6 +110,19 @@ func writeTie(s *Shared, dir string, all []*Pkg, obs []*FileRun, starts map[*Fil
 		byKey[o.Pkg+"/"+o.File] = o
 	}
 	var c01, c07, c20 []tieCase
+	// the real walkers under recording visitors (S1 and S2 files)
+	var recPkgs []*Pkg
+	for _, p := range all {
+		if p.Stream == "S1" || p.Stream == "S2" {
+			recPkgs = append(recPkgs, p)
+		}
+	}
+	walks, werr := RecordWalks(dir, recPkgs)
+	if werr != nil {
+		s.TieBroken = append(s.TieBroken, werr.Error())
+	}
+	codes := kindCodes()
+	walkFiles, walkEvents, walkPanics := 0, 0, 0
 	nodesTotal := 0
 	panics := 0
 	warnTotal := 0
@@ -124,8 +154,38 @@ func writeTie(s *Shared, dir string, all []*Pkg, obs []*FileRun, starts map[*Fil
 				warnTotal += len(o.Offs)
 				items = append(items, fmt.Sprintf("(%s, %s)", coqfmt.Str(name), obsTerm(o)))
 			}
-			tc := tieCase{desc: p.Name + "/" + f.Name + " " + p.Origin, nodes: n, file: term,
-				term: fmt.Sprintf("case_detail @FILE@ [%s]", strings.Join(items, "; "))}
+			detail := fmt.Sprintf("case_detail2 @FILE@ [%s]", strings.Join(items, "; "))
+			// comment-based checkers read the comment groups and the texts of the doc comments
+			var citems []string
+			for _, name := range ModelledCommentCheckers {
+				if o, ok := run.Outcomes[name]; ok {
+					if o.Panic {
+						panics++
+					}
+					warnTotal += len(o.Offs)
+					citems = append(citems, fmt.Sprintf("(%s, %s)", coqfmt.Str(name), obsTerm(o)))
+				}
+			}
+			cterm := ConvertComments(f)
+			detail = fmt.Sprintf("(%s ++ ccase_detail @FILE@ cs %s [%s])%%list", detail, ConvertDocTexts(f), strings.Join(citems, "; "))
+			if wo := walks[p.Name+"/"+f.Name]; wo != nil {
+				if wo.Err != "" {
+					s.TieBroken = append(s.TieBroken, fmt.Sprintf("walker recorder could not parse %s/%s: %s", p.Name, f.Name, wo.Err))
+				} else {
+					wt, ev, unknown := walkTerm(wo, codes)
+					for _, u := range unknown {
+						s.TieBroken = append(s.TieBroken, fmt.Sprintf("walker recorder: node kind %s shown on %s/%s is unknown to the converter", u, p.Name, f.Name))
+					}
+					walkFiles++
+					walkEvents += ev
+					walkPanics += len(wo.Panic)
+					ct, cev := cwalkTerm(wo)
+					walkEvents += cev
+					detail = fmt.Sprintf("(%s ++ walk_detail @FILE@ %s ++ cwalk_detail @FILE@ cs %s)%%list", detail, wt, ct)
+				}
+			}
+			detail = fmt.Sprintf("(let cs := %s in %s)", cterm, detail)
+			tc := tieCase{desc: p.Name + "/" + f.Name + " " + p.Origin, nodes: n, file: term, term: detail}
 			switch p.Stream {
 			case "S1":
 				c07 = append(c07, tc)
@@ -145,7 +205,7 @@ func writeTie(s *Shared, dir string, all []*Pkg, obs []*FileRun, starts map[*Fil
 					}
 				}
 				c20 = append(c20, tieCase{desc: p.Name + "/" + f.Name, nodes: n, file: term,
-					term: fmt.Sprintf("namesake_detail @FILE@ [%s]", strings.Join(its, "; "))})
+					term: fmt.Sprintf("namesake_detail2 @FILE@ [%s]", strings.Join(its, "; "))})
 			}
 		}
 	}
@@ -173,5 +233,6 @@ func writeTie(s *Shared, dir string, all []*Pkg, obs []*FileRun, starts map[*Fil
 	s.TieStats["converted_nodes"] = nodesTotal
 	s.TieStats["observed_panics_of_modelled_checkers"] = panics
 	s.TieStats["observed_warnings_of_modelled_checkers"] = warnTotal
-	s.TieStats["modelled_checkers"] = ModelledCheckers
+	s.TieStats["modelled_checkers"] = append(append([]string{}, ModelledCheckers...), ModelledCommentCheckers...)
+	s.TieStats["walker_tie"] = map[string]interface{}{"walkers": append(append([]string{}, WalkerNames...), CommentWalkerNames...), "files": walkFiles, "shown_nodes_compared": walkEvents, "recorded_panics": walkPanics, "skip_policies": 2}
 }
